@@ -22,16 +22,20 @@ impl CommandResult {
 }
 // opening a redirection target (tools::create_raw_fd_from_file): whether it can be opened is the file system's answer
 pub uninterp spec fn spec_openable(name: Seq<char>) -> bool;
+// ghost: how many descriptors this call holds open (C08: the pre-check of the redirection targets gives back every descriptor it opens)
+pub ghost struct FdBal { pub open: int }
 #[verifier::external_body]
-pub fn create_raw_fd_from_file(file_name: &str, append: bool) -> (r: Result<i32, String>)
-    ensures match r { Ok(_) => spec_openable(file_name@), Err(_) => !spec_openable(file_name@) }
+pub fn create_raw_fd_from_file(file_name: &str, append: bool, Tracked(fb): Tracked<&mut FdBal>) -> (r: Result<i32, String>)
+    ensures match r { Ok(_) => spec_openable(file_name@) && final(fb).open == old(fb).open + 1, Err(_) => !spec_openable(file_name@) && final(fb).open == old(fb).open }
 { unimplemented!() }
 // opening the `<` file (tools::get_fd_from_file: -1 when it cannot be opened, with a message)
 pub uninterp spec fn spec_readable(name: Seq<char>) -> bool;
 #[verifier::external_body]
-pub fn get_fd_from_file(file_name: &str) -> (r: i32) ensures (r == -1) == !spec_readable(file_name@) { unimplemented!() }
+pub fn get_fd_from_file(file_name: &str, Tracked(fb): Tracked<&mut FdBal>) -> (r: i32)
+    ensures (r == -1) == !spec_readable(file_name@), final(fb).open == old(fb).open + (if r == -1 { 0int } else { 1int })
+{ unimplemented!() }
 #[verifier::external_body]
-pub fn close(fd: i32) -> (r: i32) { unimplemented!() }
+pub fn close(fd: i32, Tracked(fb): Tracked<&mut FdBal>) -> (r: i32) ensures final(fb).open == old(fb).open - 1 { unimplemented!() }
 pub open spec fn file_target(t: Redirection) -> bool { !(t.2@.len() > 0 && t.2@[0] == '&') }
 pub open spec fn all_openable(v: Seq<Redirection>, upto: int) -> bool { forall|i: int| 0 <= i < upto && file_target(#[trigger] v[i]) ==> spec_openable(v[i].2@) }
 
@@ -47,7 +51,8 @@ RW = [Rw(r'builtins::\w+::run\(', 'vx_builtin_run(', regex=True, count=0, rule='
       Rw('libc::close(', 'close(', required=False, rule='R8')]
 LAST = '(capture && idx_cmd + 1 == cl.commands@.len())'
 try_run_builtin = Fn('src/core.rs', 'try_run_builtin', ret='r', pre_rewrites=RW,
-    add_params='Tracked(lg): Tracked<&mut BuiltinLog>', ghost_args={'vx_builtin_run': 'Tracked(lg)'},
+    add_params='Tracked(lg): Tracked<&mut BuiltinLog>, Tracked(fb): Tracked<&mut FdBal>',
+    ghost_args={'vx_builtin_run': 'Tracked(lg)', 'create_raw_fd_from_file': 'Tracked(fb)', 'get_fd_from_file': 'Tracked(fb)', 'close': 'Tracked(fb)'},
     requires=[('C05.pre.blt.stage_has_a_word', 'idx_cmd < usize::MAX && forall|i: int| 0 <= i < cl.commands@.len() ==> (#[trigger] cl.commands@[i]).tokens@.len() > 0')],
     ensures=[
         ('C02+C11.blt.only_the_last_stage_of_a_captured_pipeline_captures',
@@ -56,15 +61,17 @@ try_run_builtin = Fn('src/core.rs', 'try_run_builtin', ret='r', pre_rewrites=RW,
         ('C04.blt.unopenable_target_fails_the_builtin_without_running_it',
          'idx_cmd < cl.commands@.len() && !all_openable(cl.commands@[idx_cmd as int].redirects_to@, cl.commands@[idx_cmd as int].redirects_to@.len() as int) '
          '==> final(lg).flags == old(lg).flags && (match r { Some(c) => c.status != 0, None => false })'),
+        # C08: whatever the outcome, every descriptor the pre-check opened is closed again
+        ('C08.blt.the_pre_check_gives_back_every_descriptor_it_opens', 'final(fb).open == old(fb).open'),
         ('C04.blt.unreadable_input_file_fails_the_builtin_without_running_it',
          'idx_cmd < cl.commands@.len() && (match cl.commands@[idx_cmd as int].redirect_from { Some(t) => t.0@ == "<"@ && !spec_readable(t.1@), None => false }) '
          '==> final(lg).flags == old(lg).flags && (match r { Some(c) => c.status != 0, None => false })'),
     ],
     # (continued below: the `<` file)
-    loops={0: Loop(invariant=[('C04.inv.blt.targets_so_far_openable', 'lg.flags == old(lg).flags && idx_cmd < cl.commands@.len() && *cmd == cl.commands@[idx_cmd as int] && all_openable(cmd.redirects_to@, __I as int)')])},
+    loops={0: Loop(invariant=[('C04+C08.inv.blt.targets_so_far_openable', 'fb.open == old(fb).open && lg.flags == old(lg).flags && idx_cmd < cl.commands@.len() && *cmd == cl.commands@[idx_cmd as int] && all_openable(cmd.redirects_to@, __I as int)')])},
     )
 in_sub = Fn('src/core.rs', 'try_run_builtin_in_subprocess', ret='r',
-    add_params='Tracked(lg): Tracked<&mut BuiltinLog>', ghost_args={'try_run_builtin': 'Tracked(lg)'},
+    add_params='Tracked(lg): Tracked<&mut BuiltinLog>, Tracked(fb): Tracked<&mut FdBal>', ghost_args={'try_run_builtin': 'Tracked(lg), Tracked(fb)'},
     requires=[('C05.pre.blt.stage_has_a_word2', 'idx_cmd < usize::MAX && forall|i: int| 0 <= i < cl.commands@.len() ==> (#[trigger] cl.commands@[i]).tokens@.len() > 0')],
     # C11 / C02: in a forked stage the builtin writes to its own descriptor 1 (for the last stage of a captured pipeline that is the capture pipe): never captured in-process
     ensures=[('C02+C11.blt.a_builtin_in_a_forked_stage_is_never_run_in_capture_mode',
@@ -72,7 +79,7 @@ in_sub = Fn('src/core.rs', 'try_run_builtin_in_subprocess', ret='r',
 
 UNIT = Unit('U-BLT', TEMPLATE, fns=[try_run_builtin, in_sub, Fn('src/types.rs', 'error', impl='CommandResult', ret='r', ensures=[('C04.cr.error_status', 'r.status == 1')])],
             types=[TypeItem('src/types.rs', 'struct', 'Command'), TypeItem('src/types.rs', 'struct', 'CommandLine'), TypeItem('src/types.rs', 'struct', 'CommandResult')],
-            props=('C02', 'C11', 'C04', 'C05'))
+            props=('C02', 'C11', 'C04', 'C08', 'C05'))
 TRUSTED = common.TRUSTED_STR + [
     'the builtin bodies are external here: only the capture flag they are entered with is recorded',
     'that a builtin given capture=false writes to its stdout descriptor (the pipe to the next stage) is U-BFD plus kernel behaviour',
